@@ -109,7 +109,55 @@ impl CheckImpl for C18 {
         }
         fold_stats(acc, &stats);
     }
+    fn secondary(&mut self, tier: Tier, seed: u64) -> (Vec<Viol>, Value) {
+        let want = match std::env::var("VERIF_MIRI").ok().as_deref() {
+            Some("1") => true,
+            Some("0") => false,
+            _ => tier == Tier::Thorough,
+        };
+        if !want {
+            return (Vec::new(), json!({"engine": "miri", "skipped": "quick tier (set VERIF_MIRI=1 to include); runs in the thorough tier"}));
+        }
+        // the same random hostile histories, interpreted by Miri: out-of-bounds slice construction in the safe
+        // accessors, reads of uninitialised bytes and UB inside read_from/write_to are reported even if INV were
+        // mis-specified. 12 processes x 24 histories.
+        let t0 = std::time::Instant::now();
+        let jobs: Vec<(u64, u64)> = (0..12u64).map(|j| (j * 24, 24)).collect();
+        let seed_s = seed.to_string();
+        // warm-up build
+        let warm = crate::c20::miri_run_args(&["miri-c18", &seed_s, "0", "1"], 0, 1, "MIRI-C18: ok");
+        let mut viols = Vec::new();
+        let mut runs = vec![json!({"from": 0, "count": 1, "ok": warm.0, "warmup": true})];
+        if !warm.0 {
+            viols.push(miri_viol(seed, 0, 1, &warm.1));
+        }
+        let handles: Vec<_> = jobs
+            .iter()
+            .map(|(from, count)| {
+                let (from, count, seed_s) = (*from, *count, seed_s.clone());
+                std::thread::spawn(move || {
+                    let r = crate::c20::miri_run_args(&["miri-c18", &seed_s, &from.to_string(), &count.to_string()], 0, 1, "MIRI-C18: ok");
+                    (from, count, r)
+                })
+            })
+            .collect();
+        for h in handles {
+            let (from, count, r) = h.join().unwrap();
+            runs.push(json!({"from": from, "count": count, "ok": r.0}));
+            if !r.0 {
+                viols.push(miri_viol(seed, from, count, &r.1));
+            }
+        }
+        (viols, json!({"engine": "miri (nightly): random C18 histories interpreted, accessor probes included", "runs": runs, "wall_s": t0.elapsed().as_secs_f64()}))
+    }
     fn replay(&mut self, replay: &Value) -> Option<(String, String, String)> {
+        if replay["engine"].as_str() == Some("miri") {
+            let s = replay["seed"].as_u64().unwrap().to_string();
+            let f = replay["from"].as_u64().unwrap().to_string();
+            let c = replay["count"].as_u64().unwrap().to_string();
+            let r = crate::c20::miri_run_args(&["miri-c18", &s, &f, &c], 0, 1, "MIRI-C18: ok");
+            return if r.0 { None } else { Some(("MIRI".into(), "miri_report".into(), r.1)) };
+        }
         let h = History::from_json(replay);
         announce(0, &|| json!({"unit": 0, "replay": h.to_json()}).to_string());
         match execute(&h) {
@@ -137,4 +185,41 @@ impl CheckImpl for C18 {
             }
         })
     }
+}
+
+fn miri_viol(seed: u64, from: u64, count: u64, report: &str) -> Viol {
+    Viol {
+        unit: u64::MAX - 1,
+        oracle: "MIRI".into(),
+        class: "miri_report".into(),
+        subject: "histories".into(),
+        detail: format!("Miri reported on random histories [{from}, {}) of seed {seed}: {report}", from + count),
+        replay: json!({"engine": "miri", "seed": seed, "from": from, "count": count}),
+    }
+}
+
+/// Entry point for `cargo +nightly miri run -- miri-c18 <seed> <from> <count>`.
+pub fn miri_main(args: &[String]) -> ! {
+    let seed: u64 = args[0].parse().unwrap();
+    let from: u64 = args[1].parse().unwrap();
+    let count: u64 = args[2].parse().unwrap();
+    crate::util::install_quiet_panic_hook();
+    let mut stats = Stats::default();
+    for idx in from..from + count {
+        // offset so that Miri does not simply repeat the first native histories
+        match run_random(seed, 1_000_000 + idx, false, &mut stats, &mut |_h: &History| {}) {
+            Ok(r) => {
+                if let Some(v) = r.violation {
+                    println!("MIRI-C18: violation {} {} at history {idx}: {}", v.oracle, v.class, v.detail);
+                    std::process::exit(1);
+                }
+            }
+            Err(e) => {
+                println!("MIRI-C18: harness error {e}");
+                std::process::exit(2);
+            }
+        }
+    }
+    println!("MIRI-C18: ok histories={count}");
+    std::process::exit(0);
 }
